@@ -785,6 +785,8 @@ class CallMixin:
         st.stack.append(st.env)
         st.env = env
         out = []
+        if getattr(self, 'inlined_functions', None) is not None:
+            self.inlined_functions[finfo.qualname] = finfo
         for o, s1 in self.exec_block(finfo.node.body, st):
             s1.env = s1.stack.pop()
             if o[0] == 'normal':
